@@ -13,7 +13,7 @@ use serde::Deserialize;
 use serde_json::{json, Value};
 use unic_locale::LanguageIdentifier;
 
-pub const RULE: &str = "Domain: (a) LanguageIdentifier values reached by parsing, from_parts and mutation histories (the ids and tlangs of the C04 value pools); (b) input strings: every token sequence of 1-3 | 1-4 subtags over the 51-token language-id boundary alphabet (exhaustive), proptest well-formed ids with case/separator masks, 1-3-edit near misses, weighted raw bytes that are valid UTF-8, arbitrary Unicode strings, the CLDR corpus - each encoded as JSON three ways (serde_json's own escaping, every char as \\uXXXX with surrogate pairs, Value::String) and read through from_str, from_slice, from_reader, from_value, serde's in-memory str / String / Cow deserialisers and a hand-written one-string probe format that reports is_human_readable() = true and = false (visit_str / visit_borrowed_str / visit_string); every value and string is also processed right after a neighbour one character / subtag away (hidden state); (c) non-string documents from a recursive proptest strategy (null, bools, integers, floats, arrays, objects, a string nested in an array / object), as text, as Value and through serde's primitive deserialisers, plus truncated / garbage JSON text. Oracle: to_string(&v) == '\"' + canonical string + '\"' (canonical string from the independent canonicaliser over the getters and from Display), to_value == Value::String(same), from_str(to_string(&v)) == v; for every string s each reader succeeds iff s.parse::<LanguageIdentifier>() succeeds (and iff the reference recogniser accepts), with == values; every non-string document is an Err, never a panic. Non-trivial = value with >= 2 subtags; string with >= 2 subtags whose first subtag is a language or that is accepted; every non-string document. Distinct by construction for enumerations, hash set otherwise.";
+pub const RULE: &str = "Domain: (a) LanguageIdentifier values reached by parsing, from_parts and mutation histories (the ids and tlangs of the C04 value pools); (b) input strings: every token sequence of 1-3 | 1-4 subtags over the 51-token language-id boundary alphabet (exhaustive), proptest well-formed ids with case/separator masks, 1-3-edit near misses, weighted raw bytes that are valid UTF-8, arbitrary Unicode strings, the CLDR corpus - each encoded as JSON three ways (serde_json's own escaping, every char as \\uXXXX with surrogate pairs, Value::String) and read through from_str, from_slice, from_reader, from_value, serde's in-memory str / String / Cow deserialisers and a hand-written one-string probe format that reports is_human_readable() = true and = false (visit_str / visit_borrowed_str / visit_string); every value and string is also processed right after a neighbour one character / subtag away (hidden state); (c) non-string documents from a recursive proptest strategy (null, bools, integers, floats, arrays, objects, a string nested in an array / object, and documents that spell a well-formed identifier as an array of byte values / code points / one-character strings / subtags), as text, as Value and through serde's primitive deserialisers, plus truncated / garbage JSON text. Oracle: to_string(&v) == '\"' + canonical string + '\"' (canonical string from the independent canonicaliser over the getters and from Display), to_value == Value::String(same), from_str(to_string(&v)) == v; for every string s each reader succeeds iff s.parse::<LanguageIdentifier>() succeeds (and iff the reference recogniser accepts), with == values; every non-string document is an Err, never a panic. Non-trivial = value with >= 2 subtags; string with >= 2 subtags whose first subtag is a language or that is accepted; every non-string document. Distinct by construction for enumerations, hash set otherwise.";
 
 fn unicode_escape(s: &str) -> String {
     let mut out = String::from("\"");
